@@ -27,20 +27,20 @@ CLAIMS = {
          "strconv/time parsers, reflect and custom Unmarshalers are assumed; slices, maps and pointers only get error propagation and safety (recursion through the contract), termination of the recursion is not proved"),
  "C12": ("value-level round trip of the INI writer/reader pair: whatever writeOption writes for a string value (or for an option whose values were quoted when read) decodes - by the reader's own rule: trim, then strconv.Unquote iff the text starts with a double quote - to exactly the value passed in, for scalar and for map entries (assertions at the three output points, using the library facts Unquote(Quote(s)) == s and the shape of Quote's result); readIni stores exactly that decoding of the text after '=' and the trimmed key; IniParser.parse hands a map entry on as key:decoded-value; convertToString renders each kind with the strconv formatter that convert's parser for that kind inverts, with the base read from the same tag; writeGroupIni never writes hidden / func / no-ini options and passes the element kind on so that strings get quoted",
          "line level (section headers, '=' inside names, comment marks, the 'omitted because default' rule, _read-ini-name) and the composition into a whole-file round trip are not mechanised; Parse(Format(x)) == x for the strconv pairs, Quote/Unquote and TrimSpace facts are trusted library axioms; Marshaler/Unmarshaler implementations are outside"),
- "C13": ("optionByName returns an option of maximal rank (ini-name > field name > namespaced long name > short name) among all groups below the section's group; matchingGroups; the value handed to Set/setDefault by IniParser.parse",
-         "first-of-equal-rank, groupByName/Find (section resolution) and the relational lemma ini-entry == flag are not mechanised"),
+ "C13": ("optionByName returns an option of maximal rank (ini-name > field name > namespaced long name > short name) among all groups below the section's group; matchingGroups; Command.groupByName resolves a section name through own groups first and then, recursively, the first subcommand that answers for it; the value handed to Set/setDefault by IniParser.parse; as-defaults mode: every option this file has already defaulted is recorded (so later entries for it accumulate)",
+         "first-of-equal-rank, Group.Find (group lookup by description) and the relational lemma ini-entry == flag are not mechanised"),
  "C14": ("readFullLine/readIni/IniParser.parse: no index or nil panic for any byte sequence, termination for finite input, every *IniError carries the number of lines read so far and the file name, sections are registered in file order, ErrUnknownGroup only without IgnoreUnknown",
          "bufio.Reader.ReadLine is assumed (finite input); that noise lines do not change other entries is read off the loop structure, not a separate lemma"),
  "C15": ("every place where the library ranges over a Go map or over reflect's MapKeys is executed for an arbitrary ghost iteration order, and what leaves the function is shown order-free: convertToString and writeGroupIni render map entries by ascending rendered key (sortedness is a loop invariant of the rendering loop), completion candidates leave complete() sorted, visible commands are sorted, the required-flag list is sorted before it is joined into the message, IniParser.parse walks the sections in file order (ini.order), never the Sections map",
          "determinism is argued per function from 'canonical order' obligations (a sorted sequence of a set is unique); it is not a relational (two-run) proof; the Go scheduler and map hashing are otherwise outside the model; help/man text is order-free because it only ranges over slices"),
  "C16": ("help and man page rows: writeManPageOptions and WriteHelp write exactly one row per option that can be shown (non-hidden, with a name) of every group that is not hidden (and, below the top level, not the built-in help group) along the iterated groups / active chain - counted with ghost counters against a recursive specification - and no row for anything else; hidden options write nothing (writeHelpOption); a masked default is rendered as its mask or not at all, never as its value (help row text and man row); man sections and the help command list only come from the sorted visible (non-hidden) subcommands",
          "the byte-level layout of a row (names, value name, choices) is not specified beyond the description/default/env text; fmt and bufio are assumed; termination of the mutual recursion of the man-page walk is not proved; ordinals of 'at call' assertions are tied to the current source"),
- "C17": ("wrapText: safety of every slice expression, termination, break positions 1 <= pos < width, and content preservation (the text without white space and hyphens is unchanged)",
-         "alignment (getAlignmentInfo / writeHelpOption / argument rows: the padding counts are non-negative) is not yet under contract - the byte/character defect there was repaired by a fix: commit but is not yet guarded by an obligation; nwd is a trusted ghost function"),
- "C18": ("completion: completeCommands returns exactly the non-hidden subcommands of the current command with the typed prefix; completeOptionNames offers only non-hidden long names of the table with that prefix, one item per such name (counting invariant over every order the runtime may range over the table), a non-empty short prefix is returned as it is; completeValue re-attaches the spelling typed so far to each completion of the value's type; complete: the word walk decides 'value attached to the first short option' exactly as the parser's splitShortConcatArg does (width of the first character as decoded), one source of candidates per call, the result is the sorted rearrangement of that source",
+ "C17": ("wrapText: safety of every slice expression, termination, break positions 1 <= pos < width, and content preservation (the text without white space and hyphens is unchanged); alignment: getAlignmentInfo sizes the option column for every option the help shows and for every positional argument of the active chain (counted in characters), and with that every strings.Repeat count in writeHelpOption and WriteHelp (padding before descriptions, argument rows, command list) is proved non-negative - help generation cannot panic on a negative count whatever the names",
+         "'no description line extends past the terminal width' and 'continuation lines are indented to the description column' are not mechanised; three facts about UTF-8 character counts under concatenation (sub-additive, at most 3 less than the sum, exact before an ASCII byte), the ghost character count of bytes.Buffer and the description of what eachActiveGroup visits are trusted axioms; nwd is a trusted ghost function"),
+ "C18": ("completion: completeCommands returns exactly the non-hidden subcommands of the current command with the typed prefix; completeOptionNames offers only non-hidden long names of the table with that prefix, one item per such name (counting invariant over every order the runtime may range over the table), a non-empty short prefix is returned as it is; completeValue asks the value's own Completer (or, failing that, the Completer of its address) exactly once and re-attaches the spelling typed so far to each answer; complete: the word walk decides 'value attached to the first short option' exactly as the parser's splitShortConcatArg does (width of the first character as decoded), one source of candidates per call, the result is the sorted rearrangement of that source",
          "the relational claim 'the parser reaches the same command context on the same prefix' is covered only for the attached-value rule of clusters, not for the whole walk (positionals, terminator, command switch are safety-checked only); short-name offers (second table) and the Completer implementations are not specified; table entries are trusted to be non-nil"),
- "C19": ("multiTag.scan against a recursive grammar of the tag text (keys, escapes inside quoted values, repeated keys in order, strconv.Unquote of each literal), safety for every string, ErrTag on every error exit",
-         "Get/GetMany/cached and the attribute mapping in scanStruct (which tag feeds which Option field), duplicate detection and short-name length are not yet under contract"),
+ "C19": ("multiTag.scan against a recursive grammar of the tag text (keys, escapes inside quoted values, repeated keys in order, strconv.Unquote of each literal), safety for every string, ErrTag on every error exit; checkForDuplicateFlags: a nil result implies that no two options of the declaration share a short name or a namespaced long name (the two tables are proved to be witnesses), a non-nil result is ErrDuplicatedFlag",
+         "Get/GetMany/cached and the attribute mapping in scanStruct (which tag feeds which Option field), the short-name-length and bool-default checks are not under contract (reflection over struct fields)"),
  "C20": ("levenshtein proved equal to the Wagner-Fischer recurrence over rune sequences (table invariants), closestChoice returns the first minimum, visible/sorted command lists, estimateCommand: candidates are exactly the sorted visible subcommands, suggestion iff 2*distance < length of the suggested name, otherwise the enumeration of all of them (message text proved)",
          "the float32 threshold in estimateCommand is modelled over the reals; symmetry and d=0 iff equal are properties of the recurrence not proved as lemmas"),
 }
